@@ -43,6 +43,8 @@ FAIL = [
     ("p/addn-x", "unconvertible", "p", []),
     ("p/add2", "missing", "p", []),
     ("p/addn-1-2", "surplus", "p", []),
+    ("p/addn-1-", "surplus", "p", []),          # the surplus argument is an EMPTY string
+    ("p/one-", "surplus", "p", []),
     ("p/addn-~X~/bad~E", "abslink", "p", ["/bad"]),
     ("p/addn-~X~bad~E", "rellink", "p", ["p/bad"]),
     ("p/addn-3/add2-~X~/bad/x~E-k", "abslink2", "p/addn-3", ["/bad/x"]),
